@@ -200,9 +200,25 @@ def seq_model(eng, srcs, mode, on_done=None):
     """Subscribe srcs (an iterator of source ids, possibly lazy) strictly one after another.
     mode: 'concat' (continue on C, stop on E), 'catch' (continue on E, stop on C), 'resume' (continue on both)."""
     it = iter(srcs)
-    state = {"last_err": None}
+    state = {"last_err": None, "running": False, "again": False}
 
     def start_next():
+        # iterative: a source that terminates inside subscribe() asks for the next one from within step(); hundreds of such runs
+        # (repeat(300) of a synchronous source) must not nest in the model either
+        if state["running"]:
+            state["again"] = True
+            return
+        state["running"] = True
+        try:
+            while True:
+                state["again"] = False
+                step()
+                if not state["again"]:
+                    break
+        finally:
+            state["running"] = False
+
+    def step():
         try:
             sid = next(it)
         except StopIteration:
